@@ -33,6 +33,8 @@ def texpr(t, f=None):
         out = {'k': 'attr', 'of': texpr(t['of'])}
     elif k == 'any':
         out = {'k': 'any'}
+    elif k == 'enum':
+        out = {'k': 'enum', 'name': t['name'], 'values': list(t['values'])}
     else:
         raise ValueError(t)
     if f is not None and 'sub' in f:
@@ -191,6 +193,8 @@ def from_native(t, x, repeated=False):
         return from_native(t['of'], x)
     if k == 'any':
         return ['xml', tree_name(x)]
+    if k == 'enum':
+        return ['leaf', str(x)]
     if k == 'arr':
         try:
             return ['seq', [from_native(t['of'], y) for y in x]]
